@@ -2,7 +2,6 @@
 
 #[cfg(test)]
 use std::fs::OpenOptions;
-#[cfg(test)]
 use std::io::Write;
 use std::sync::{Arc, Mutex};
 
@@ -114,7 +113,8 @@ where
                                 if co.yield_(None).unwrap_or_default() == DECALN {
                                     listener.lock().unwrap().alignment_display();
                                 } else {
-                                    println!("unexpected escape character");
+                                    // A failing stdout must not take the parser down.
+                                    let _ = writeln!(std::io::stdout(), "unexpected escape character");
                                 }
                             } else if char == "%" {
                                 // Select other charset: the final character
@@ -255,7 +255,8 @@ where
                                 if co.yield_(None).unwrap_or_default() == DECALN {
                                     listener.lock().unwrap().alignment_display();
                                 } else {
-                                    println!("unexpected escape character");
+                                    // A failing stdout must not take the parser down.
+                                    let _ = writeln!(std::io::stdout(), "unexpected escape character");
                                 }
                             } else if char == "%" {
                                 // Select other charset: the final character
